@@ -30,6 +30,8 @@ pub struct RidsCase {
 const HOMES: &[Option<&str>] = &[None, Some(""), Some("/home/u")];
 const XHOME: &[Option<&str>] = &[None, Some(""), Some("/x/val")];
 const LISTS: &[Option<&str>] = &[None, Some(""), Some("/l1"), Some("/l1:/l2"), Some(":/l1::/l2:")];
+/// lists for the getter cross-product: additionally the root directory as an entry and entries with trailing separators
+const LISTS_G: &[Option<&str>] = &[None, Some(""), Some("/l1"), Some("/l1:/l2"), Some(":/l1::/l2:"), Some("/"), Some("/l1/:/:/l2//")];
 const RUNTIME: &[Option<&str>] = &[None, Some("/run/u")];
 
 fn split_list(v: &str) -> Vec<String> {
@@ -126,7 +128,8 @@ fn check_list(name: &str, resp: &Value, var: &str, default: Option<&[&str]>, env
         None => default.map(|d| d.iter().map(|s| s.to_string()).collect()),
     };
     match (want, ok_list(resp)) {
-        (Some(w), Some(g)) if w == g => Ok(()),
+        // entries are compared as paths (component-wise): a trailing separator is not significant
+        (Some(w), Some(g)) if w.len() == g.len() && w.iter().zip(g.iter()).all(|(a, b)| Path::new(a) == Path::new(b)) => Ok(()),
         (None, _) => Ok(()), // PATH unset: no default is documented; totality only
         (Some(w), g) => Err(Failure::new(format!("{}|value|{}", name, cls), format!("{} = {:?} want {:?} env {:?}", name, g.ok_or_else(|| resp.to_string()), w, env))),
     }
@@ -272,7 +275,7 @@ fn set(env: &mut Env, k: &str, v: &Option<&str>) {
 }
 
 fn xdg_env(idx: u64) -> Env {
-    // mixed radix decode: HOME(3) x 4 *_HOME(3 each) x 3 lists(5 each) x RUNTIME(2) = 60750
+    // mixed radix decode: HOME(3) x 4 *_HOME(3 each) x 3 lists(7 each) x RUNTIME(2) = 166698
     let mut i = idx;
     let mut take = |n: u64| {
         let r = i % n;
@@ -285,22 +288,22 @@ fn xdg_env(idx: u64) -> Env {
     set(&mut e, "XDG_DATA_HOME", &XHOME[take(3)]);
     set(&mut e, "XDG_CACHE_HOME", &XHOME[take(3)]);
     set(&mut e, "XDG_STATE_HOME", &XHOME[take(3)]);
-    set(&mut e, "XDG_CONFIG_DIRS", &LISTS[take(5)]);
-    set(&mut e, "XDG_DATA_DIRS", &LISTS[take(5)]);
-    set(&mut e, "PATH", &LISTS[take(5)]);
+    set(&mut e, "XDG_CONFIG_DIRS", &LISTS_G[take(7)]);
+    set(&mut e, "XDG_DATA_DIRS", &LISTS_G[take(7)]);
+    set(&mut e, "PATH", &LISTS_G[take(7)]);
     set(&mut e, "XDG_RUNTIME_DIR", &RUNTIME[take(2)]);
     e
 }
-const XDG_SPACE: u64 = 3 * 81 * 125 * 2;
+const XDG_SPACE: u64 = 3 * 81 * 343 * 2;
 
 pub fn run(c: &Ctx) {
-    c.set_rule("one child process per configuration (env_clear + exactly the generated variables). (a) getters: cross-product HOME{unset,'',value} x XDG_{CONFIG,DATA,CACHE,STATE}_HOME{unset,'',value} x XDG_CONFIG_DIRS/XDG_DATA_DIRS/PATH{unset,'','/l1','/l1:/l2',':/l1::/l2:'} x XDG_RUNTIME_DIR{unset,value} = 60750 configurations (thorough: all; quick: seeded 320 + corner cases). (b) vfs.config_dir(name): HOME x XDG_CONFIG_HOME {unset,value} x XDG_CONFIG_DIRS{unset,'','/l1','/l1:/l2',':/l1::/l2:'} x every subset of candidate directories containing the file, on Memfs (built in the child) and on Stdfs (sandbox on tmpfs). (c) getrids: SUDO_UID x SUDO_GID in 10 values each x 6 (uid,gid) pairs. Oracle: reference functions written from the statement / XDG spec. Non-trivial = configuration with at least one variable set-but-empty or a list with empty segments, or a config_dir case whose first candidate lacks the file; distinct by configuration.");
+    c.set_rule("one child process per configuration (env_clear + exactly the generated variables). (a) getters: cross-product HOME{unset,'',value} x XDG_{CONFIG,DATA,CACHE,STATE}_HOME{unset,'',value} x XDG_CONFIG_DIRS/XDG_DATA_DIRS/PATH{unset,'','/l1','/l1:/l2',':/l1::/l2:','/','/l1/:/:/l2//'} x XDG_RUNTIME_DIR{unset,value} = 166698 configurations (thorough: all; quick: seeded 4000 + corner cases). (b) vfs.config_dir(name): HOME x XDG_CONFIG_HOME {unset,value} x XDG_CONFIG_DIRS{unset,'','/l1','/l1:/l2',':/l1::/l2:'} x every subset of candidate directories containing the file, on Memfs (built in the child) and on Stdfs (sandbox on tmpfs). (c) getrids: SUDO_UID x SUDO_GID in 10 values each x 6 (uid,gid) pairs. Oracle: reference functions written from the statement / XDG spec. Non-trivial = configuration with at least one variable set-but-empty or a list with empty segments, or a config_dir case whose first candidate lacks the file; distinct by configuration.");
     c.assume("set-but-empty *_HOME / XDG_RUNTIME_DIR: value verbatim or spec default both admitted; HOME='' defaults: relative or rooted spelling admitted; PATH unset: totality only");
     // (a) getters
-    let n_quick = 320u64;
+    let n_quick = 4000u64;
     let total = c.tier.pick(n_quick, XDG_SPACE);
     par_for(total, 8, |j| {
-        let idx = if c.tier == Tier::Thorough { j } else if j < 4 { [0, XDG_SPACE - 1, 1, 3 * 81 * 62][j as usize] } else { splitmix(c.seed ^ splitmix(1800 + j)) % XDG_SPACE };
+        let idx = if c.tier == Tier::Thorough { j } else if j < 4 { [0, XDG_SPACE - 1, 1, 3 * 81 * 171][j as usize] } else { splitmix(c.seed ^ splitmix(1800 + j)) % XDG_SPACE };
         let case = XdgCase { env: xdg_env(idx) };
         mark("xdg", &serde_json::to_string(&case).unwrap());
         c.eval(1);
